@@ -43,7 +43,9 @@ static long double poly(Plan const& p, long double const* x, std::size_t n)
     for (std::size_t t = 0; t != terms; ++t)
     {
         long double term = 0.5L + unit(s, 1000 + t);
-        for (std::size_t j = 0; j != n; ++j)
+        // high dimensional points: only the first two coordinates matter (spectator dimensions)
+        std::size_t const nj = (n > 8) ? 2 : n;
+        for (std::size_t j = 0; j != nj; ++j)
         {
             long double const a = 0.25L + unit(s, 2000 + 16 * t + j);
             long double const b = ((mix2(s, 3000 + 16 * t + j) & 3) == 0) ? 0.0L
@@ -64,7 +66,8 @@ long double script_poly_integral(Plan const& p, std::size_t n)
     for (std::size_t t = 0; t != terms; ++t)
     {
         long double term = 0.5L + unit(s, 1000 + t);
-        for (std::size_t j = 0; j != n; ++j)
+        std::size_t const nj = (n > 8) ? 2 : n;
+        for (std::size_t j = 0; j != nj; ++j)
         {
             long double const a = 0.25L + unit(s, 2000 + 16 * t + j);
             long double const b = ((mix2(s, 3000 + 16 * t + j) & 3) == 0) ? 0.0L
@@ -92,7 +95,7 @@ long double script_value(Plan const& p, long double const* x, std::size_t n, std
     {
         long double const g = std::ldexp(1.0L, -static_cast<int>(2 + mix2(s, 5) % 5));
         v = 1;
-        for (std::size_t j = 0; j != n; ++j)
+        for (std::size_t j = 0; j != n && j != 8; ++j)
         {
             long double const c = unit(s, 100 + j);
             long double const d = x[j] - c;
@@ -103,7 +106,7 @@ long double script_value(Plan const& p, long double const* x, std::size_t n, std
 
     case F_SIGN:
         v = 1;
-        for (std::size_t j = 0; j != n; ++j) v *= 2.0L * x[j] - 1.0L;
+        for (std::size_t j = 0; j != n && j != 8; ++j) v *= 2.0L * x[j] - 1.0L;
         break;
 
     case F_ZERO:
@@ -277,6 +280,12 @@ std::vector<long double> make_user_grid(Plan const& p)
         std::vector<long double> w(p.bins);
         long double sum = 0;
         std::uint64_t const style = mix2(p.gseed, 50 + j) % 3;
+        if (p.scn == "lattice" && p.variant == 3 && j >= 2)
+        {
+            // spectator dimensions of the high dimensional lattice plans keep a uniform grid
+            for (std::uint64_t b = 0; b != p.bins + 1; ++b) g.push_back(static_cast<long double>(b) / p.bins);
+            continue;
+        }
         for (std::uint64_t b = 0; b != p.bins; ++b)
         {
             long double e = 0;
